@@ -18,11 +18,11 @@ import lingo_gen as L
 from lingo_gen import S, sx
 
 PROP = "C03"
-LEAN_MODULES = ["DrxProps.C03", "DrxProps.C03Link"]
+LEAN_MODULES = ["DrxProps.C03", "DrxProps.C03b", "DrxProps.C03Link"]
 FAMILIES = ["lspec"]
 RULE = ("skeletons are enumerated exhaustively (see docstring) with unique markers in every simple statement, condition and bound; "
         "programs are compiled by the Lean scheme and the nesting tree read back from the real decompiler's text must equal the source "
-        "tree. The structural classes of the open findings F23-F25, F126 are predicted from the SOURCE tree (lingo_gen.c03_classes) and "
+        "tree. The structural classes of the open findings F23-F25, F126, F138 are predicted from the SOURCE tree (lingo_gen.c03_classes) and "
         "the check verifies on every run that predicted-failing == observed-failing on the whole enumeration: a failing program outside "
         "the classes is a violation, a passing program inside them is reported (coverage.class_prediction).")
 TRUSTED = ["lean/Drx/Spec/Compile.lean layout (compileStructured) — validated on the 7 control-flow fixtures by scheme_validation (C02 evidence)",
@@ -175,7 +175,10 @@ class RandCF:
 
     def compound(self, env, depth, in_loop, width, allow_exit):
         r = self.rng
-        k = r.choice(["if", "if", "ifelse", "ifelse", "while", "up", "down", "in"])
+        k = r.choice(["if", "if", "ifelse", "ifelse", "while", "up", "down", "in"] + (["tell"] if getattr(self, "tells", False) else []))
+        if k == "tell":
+            # a tell block is transparent for the control structure: its statements keep their own conditions and loops (F137)
+            return ["tell", ["c", "window", ["s", S("w%d" % self.num())]]] + self.body(env, depth, in_loop, width, allow_exit)
         if k == "if":
             return ["if", self.cond(env), self.body(env, depth, in_loop, width, allow_exit), []]
         if k == "ifelse":
@@ -198,6 +201,7 @@ def random_scripts(rng, n, allow_exit_ratio=0.5):
     out = []
     for i in range(n):
         g = RandCF(rng)
+        g.tells = rng.random() < 0.3
         nh = rng.choice([1, 1, 2, 3])
         hs = []
         allow_exit = rng.random() < allow_exit_ratio
@@ -340,6 +344,10 @@ PROBES.update({
     "f135_gt_is_not_repeat_with": ["on", "probe", [], ["set", _i, ["i", 1]], ["while", ["b", "gt", _i, ["i", 5]], _put(1), ["set", _i, ["b", "add", ["i", 1], _i]]]],
     "f136_getAt_1_is_not_repeat_in": ["on", "probe", [], ["while", ["b", "le", ["i", 1], ["c", "count", _l]], ["set", _x, ["c", "getAt", _l, ["i", 1]]], _put(1)]],
     "withlike_canonical_form": ["on", "probe", [], ["set", _i, ["i", 1]], ["while", ["b", "le", _i, ["i", 5]], _put(1), ["set", _i, ["b", "add", ["i", 1], _i]]]],
+    "f138_exit_directly_in_tell": ["on", "probe", [], ["while", ["b", "ne", ["l", "c"], ["i", 1]], ["if", ["b", "lt", ["l", "c"], ["i", 2]],
+                                   [["tell", ["c", "window", ["s", S("a")]], "exitrep", _put(3)]], []]]],
+    "f137_if_and_loop_inside_tell": ["on", "probe", [], ["tell", ["c", "window", ["s", S("a")]], ["if", ["b", "lt", ["l", "c"], ["i", 2]], [_put(1)], [_put(2)]],
+                                      ["with", _i, ["i", 1], ["i", 3], "up", ["tell", ["c", "window", ["s", S("b")]], ["if", ["b", "lt", ["l", "c"], ["i", 4]], ["exitrep"], []]], _put(3)]]],
     "empty_bodies_everywhere": ["on", "probe", [], ["if", ["b", "lt", ["l", "c"], ["i", 2]], [], [["while", ["b", "lt", ["l", "c"], ["i", 3]]]]],
                                 ["with", _i, ["i", 1], ["i", 5], "up"], ["in", _x, _l], ["with", _i, ["i", 5], ["i", 1], "down", ["if", ["b", "lt", ["l", "c"], ["i", 4]], [], []]]],
 })
